@@ -1174,6 +1174,14 @@ class Lower:
             return 'any__from_%s(%s)' % (self.types.mangle(qt(strip(args[0]))), self.addr(self.ex(args[0])))
         if cls == 'handle' or cls == 'function':
             raise LowerError("construction of library type %r" % t)
+        if not args:
+            if cls == 'iter':
+                return '((%s)0)' % self.types.ctype(t)       # value-initialised iterator: compares equal to end() in the map model
+            if cls == 'builtin':
+                return '((%s)0)' % self.types.ctype(t)
+            if cls in ('bt', 'vec', 'deq', 'umap', 'opt'):
+                return '(%s){0}' % self.types.ctype(t)       # empty container / disengaged optional
+            raise LowerError("default construction of %s in expression position" % cls)
         return self.ex(args[0])
     ex_CXXTemporaryObjectExpr = ex_CXXConstructExpr
 
